@@ -21,7 +21,7 @@ THEOREMS = [
     "Yaw.C17.bins_sel", "Yaw.C17.bins_sel_empty", "Yaw.C17.sliceSel_step_one",
     "Yaw.C17Ctor.counts_ctor_spec", "Yaw.C17Ctor.sumweights_ctor_spec", "Yaw.C17Ctor.sampled_ctor_spec",
     "Yaw.C17Ctor.normalised_ctor_spec", "Yaw.C17Ctor.corrfunc_ctor_spec", "Yaw.C17Ctor.drain_from",
-    "Yaw.C17Ctor.iteration_complete", "Yaw.C17Ctor.indexer_flags",
+    "Yaw.C17Ctor.iteration_complete", "Yaw.C17Ctor.indexer_flags", "Yaw.C17Ctor.cf_add_symmetric", "Yaw.C17Ctor.corrfunc_algebra_flags",
 ]
 RULE = ("random containers (B 1..5, N 1..6, auto/cross, members dd + random subset of dr/rd/rr) x operation drawn "
         "from {mul by scalar, add (compatible / other edges / other closed side / other patch number), bins[int], "
@@ -423,6 +423,18 @@ def run(prop, tier, seed, replay):
                 ck.count("eq:member-sets")
                 ab, e1 = attempt(lambda: cf == other)
                 ba, e2 = attempt(lambda: other == cf)
+                # ... and they cannot be added: one operand's counts would have nowhere to go (a sum that silently drops the counts
+                # only one operand has is no sum; the two orders must agree)
+                s1, ea = attempt(lambda: cf + other)
+                s2, eb = attempt(lambda: other + cf)
+                ck.count("add:member-sets")
+                if not (ea and eb):
+                    ok_ = [sorted(x.to_dict()) for x, e_ in ((s1, ea), (s2, eb)) if not e_]
+                    ck.add_violation(f"CorrFunc with members {sorted(cf.to_dict())} + the same {label}: a + b "
+                                     f"{'raised ' + ea if ea else 'returned members ' + str(sorted(s1.to_dict()))}, b + a "
+                                     f"{'raised ' + eb if eb else 'returned members ' + str(sorted(s2.to_dict()))} (counts of one operand are "
+                                     "dropped silently; both orders must be rejected)",
+                                     {"class": "CorrFunc", "op": "add", "members": sorted(cf.to_dict()), "other": label, "results": ok_})
                 if e1 or e2 or ab or ba or not (cf != other) or not (other != cf):
                     ck.add_violation(f"CorrFunc with members {sorted(cf.to_dict())} vs the same {label}: a == b is {ab}, "
                                      f"b == a is {ba} (both must be False)" + (f" [{e1 or e2}]" if (e1 or e2) else ""),
